@@ -33,12 +33,13 @@ RULE = ("(a) enumerated delivery patterns through a real node's update(): messag
         "senders (in a third of the runs one of them a level further down, its fragments forwarded and answered with NETWORK_ACKs) writing fragmented messages (a quarter of them up to 168 bytes, a quarter re-using one frame id for two messages) "
         "concurrently with coinciding or different frame ids under packet/ACK loss. "
         "(c) a sender's two consecutive fragmented multicasts with library-assigned frame ids, 0..4096 headers created in between, the first losing its LAST and the second its FIRST fragment. "
+        "(d) a fragmented multicast relayed to the next level by a node with multicast_relay on. "
         "Non-trivial: at least two fragment frames reached the node; distinct = distinct arrival sequences x dequeue position")
 ASSUMPTIONS = ["reference fragmenter checks/netref.fragment (TMRh20 numbering)", "chip model M4 (fresh PID per injected frame)",
                "nothing is claimed about which messages get through"]
 CLAUSES = {"intact": "byte-for-byte one complete message that some node actually sent to it, with its type and origin",
            "at_most_once": "one transmitted message is delivered at most once"}
-PROBES = ["stream_met_full_queue", "pair_with_targeted_losses"]
+PROBES = ["stream_met_full_queue", "pair_with_targeted_losses", "relayed_fragmented_multicast_delivered"]
 SHRINK_KEYS = ("seq", "faults")
 CHUNK = 100
 _ENUM = {}
@@ -137,6 +138,12 @@ def _enum(tier):
     cases.append(("cacheid", [[0, 1]], "stray_last_cache_id"))
     cases.append(("cacheid", [[0, 1], [0, 1]], "stray_last_cache_id_twice"))
     cases.append(("cacheid3", [[0, 1], [0, 2]], "stray_more_last_cache_id"))
+    # a runt (a payload shorter than a header: foreign traffic that passed the radio's CRC) at every point of a complete stream
+    for f in (2, 3, 4):
+        st = _streams(f)
+        full = [[0, j] for j in range(f)]
+        for pos in range(f + 1):
+            cases.append((st, full[:pos] + [[-1, 3 + pos]] + full[pos:], "runt"))
     # x dequeue position
     out = []
     for st, seq, kind in cases:
@@ -164,10 +171,11 @@ def _enum(tier):
 
 
 NPAIR = 60
+NRELAY = 30
 
 
 def count(tier):
-    return len(_enum(tier)) * 2 + (300 if tier == "quick" else 6000) + (NPAIR if tier == "quick" else 20 * NPAIR)
+    return len(_enum(tier)) * 2 + (300 if tier == "quick" else 6000) + (NPAIR if tier == "quick" else 20 * NPAIR) + (NRELAY if tier == "quick" else 10 * NRELAY)
 
 
 def exhaustive(tier):
@@ -187,6 +195,12 @@ def make(i, base_seed, tier):
         return {"seed": seed, "layer": "a", "role": list(role), "streams": st, "seq": [list(x) for x in seq], "deq": deq, "prefill": pre,
                 "kind": kind, "faults": []}
     kr = stream(seed, "knobs")
+    if i >= 2 * len(en) + (300 if tier == "quick" else 6000) + (NPAIR if tier == "quick" else 20 * NPAIR):
+        # ---- (d) a fragmented multicast relayed to the next level by a node with multicast_relay on: the relay's own application and the
+        # listener one level further down get the complete message or nothing
+        dr = stream(seed, "relay")
+        return {"seed": seed, "layer": "d", "kind": "relayed_multicast", "relay": dr.choice([0o1, 0o2, 0o4]), "len": dr.randint(25, 120), "type": dr.randint(0, 127),
+                "mseed": dr.getrandbits(20), "listener_digit": dr.randint(1, 5), "knobs": [random_mcu_knobs(kr, stalls=False) for _ in range(3)], "faults": []}
     if i >= 2 * len(en) + (300 if tier == "quick" else 6000):
         # ---- (c) a sender's two consecutive fragmented multicasts (unacknowledged, so the tail of a message goes out whatever
         # became of its head) with a seeded number of headers created in between, the first message losing its LAST fragment and
@@ -215,7 +229,16 @@ def make(i, base_seed, tier):
         if x.random() < 0.25:     # sender configured for longer messages than the default (7 fragments)
             senders[-1]["maxlen"] = 168
             senders[-1]["len"] = x.randint(140, 168)
-        if x.random() < 0.25:     # the sender's messages re-use one header (same frame id); direct children only send fragment k+1
+        if x.random() < 0.2:
+            # the application keeps one header object for all its messages and the node is re-addressed (to a free sibling address)
+            # between two of them: the second message's origin is the new address
+            free_d = [q for q in range(1, 6) if q not in kids]
+            if free_d:
+                senders[-1]["same_header_obj"] = True
+                senders[-1]["move_to"] = recv | (x.choice(free_d) << (3 * lv))
+                senders[-1]["n"] = 2
+                kids = kids + [senders[-1]["move_to"] >> (3 * lv) & 7]
+        elif x.random() < 0.25:     # the sender's messages re-use one header (same frame id); direct children only send fragment k+1
             senders[-1]["reuse_id"] = True   # after fragment k was acknowledged, so a later message's FIRST always precedes its tail
             senders[-1]["n"] = 2
     zr = stream(seed, "routed")
@@ -239,6 +262,8 @@ def run(scn):
             _run_a(scn, w, res)
         elif scn["layer"] == "c":
             _run_c(scn, w, res)
+        elif scn["layer"] == "d":
+            _run_d(scn, w, res)
         else:
             _run_b(scn, w, res)
     except SimAbort:
@@ -308,6 +333,17 @@ def _run_a(scn, w, res):
     for k, (si, fi) in enumerate(scn["seq"]):
         if k == scn.get("deq", -1):
             dequeue_all()
+        if si == -1:
+            inj.send(rn.pipe_addr(netref.child_pipe(frames[0][0])), bytes([0xA5] * min(7, fi)), want_ack=False)
+            sim.log("inject_runt", "N", fi)
+            try:
+                node.update()
+            except SimAbort:
+                raise
+            except Exception as e:
+                res.add("intact", {"kind": "update_raised", "exc": type(e).__name__}, "update() raised %r for a %d-byte payload" % (e, fi))
+                return
+            continue
         if si >= len(frames) or fi >= len(frames[si][1]):
             continue
         child, frs = frames[si]
@@ -351,8 +387,8 @@ def _run_b(scn, w, res):
     cmds = []
     for s in scn["senders"]:
         msgs = [(s["type"], payload(s["seed"] + j, s["len"] - (j if s.get("reuse_id") and s["len"] > 25 else 0))) for j in range(s["n"])]
-        for (t, d) in msgs:
-            sent.append((s["addr"], t, d))
+        for j_, (t, d) in enumerate(msgs):
+            sent.append((s["move_to"] if (s.get("same_header_obj") and j_ >= 1) else s["addr"], t, d))
 
         def do(node, s=s, msgs=msgs):
             from circuitpython_nrf24l01.network.structs import RF24NetworkHeader, RF24NetworkFrame
@@ -361,7 +397,16 @@ def _run_b(scn, w, res):
             out = []
             if s.get("maxlen"):
                 node.max_message_length = s["maxlen"]
+            keep_h = None
             for j, (t, d) in enumerate(msgs):
+                if s.get("same_header_obj"):
+                    if keep_h is None:
+                        keep_h = RF24NetworkHeader(recv, t)
+                    else:
+                        node.node_address = s["move_to"]
+                        keep_h.frame_id = (keep_h.frame_id + 1) & 0xFFFF
+                    out.append(node.write(RF24NetworkFrame(keep_h, d)))
+                    continue
                 h = RF24NetworkHeader(recv, t)
                 h.frame_id = (s["fid"] + (0 if s.get("reuse_id") else j)) & 0xFFFF
                 out.append(node.write(RF24NetworkFrame(h, d)))
@@ -426,6 +471,32 @@ def _run_c(scn, w, res):
         sim.count("pair_with_targeted_losses")
     res.nontrivial = len(w.air.trace) >= 4
     res.sample = {"layer": "c", "between": scn["between"], "next_id": scn["next_id"], "lose": lose, "delivered": [(oct(d[0]), d[1], len(d[2])) for d in delivered]}
+
+
+def _run_d(scn, w, res):
+    sim = w.sim
+    net = Net(w)
+    relay = scn["relay"]
+    lis = relay | (scn["listener_digit"] << 3)
+    net.add(0, "net", 0, knobs=scn["knobs"][0])
+    net.add(relay, "net", relay, knobs=scn["knobs"][1], setup=lambda node: setattr(node, "multicast_relay", True))
+    net.add(lis, "net", lis, knobs=scn["knobs"][2])
+    net.start()
+    sim.advance(3 * MS)
+    data = payload(scn["mseed"], scn["len"])
+    c = net.call(0, "multicast", lambda node: node.multicast(data, scn["type"], 1), timeout=10_000 * MS)
+    net.wait_quiet(quiet=15 * MS, timeout=3000 * MS)
+    net.shutdown()
+    if not c.done or c.exc is not None:
+        res.add("intact", {"kind": "multicast_raised_or_hung", "exc": type(c.exc).__name__}, "multicast() %r" % (c.exc,))
+        return
+    sent = [(0, scn["type"], data)]
+    for k in (relay, lis):
+        _judge(res, [(e[1], e[3], e[4]) for e in net.nodes[k].log], sent, "relayed_multicast")
+    if net.nodes[lis].log:
+        sim.count("relayed_fragmented_multicast_delivered")
+    res.nontrivial = len(w.air.trace) >= 4
+    res.sample = {"layer": "d", "relay": oct(relay), "len": scn["len"], "listener_got": [(oct(e[1]), e[3], len(e[4])) for e in net.nodes[lis].log]}
 
 
 def same_class(a, b):
